@@ -508,7 +508,10 @@ TREE_SHAPES = ['flat', 'nested', 'list', 'frozen']
 TREE_WRITES = ['none', 'same', 'full', 'partial', 'deep']
 TREE_FILTERS = [('list', lambda: ['cache']), ('set', lambda: {'cache'}), ('tuple', lambda: ('cache',)),
                 ('str', lambda: 'cache'), ('true', lambda: True), ('false', lambda: False),
-                ('set-params', lambda: {'params'}), ('list-both', lambda: ['cache', 'params'])]
+                ('set-params', lambda: {'params'}), ('list-both', lambda: ['cache', 'params']),
+                # filters that select nothing are still filters: (output, {}) comes back
+                ('empty-list', lambda: []), ('empty-tuple', lambda: ()), ('empty-set', lambda: set()),
+                ('empty-str', lambda: '')]
 
 
 def _tree_arg(shape):
@@ -748,6 +751,14 @@ def _run_tree(res, shape):
             core.violation(res, 'tree-filter-stateful|' + key,
                            'reusing the same filter object after a call gives a different result '
                            'than a fresh equal filter', dict(case0, filter=fname, capture=capture))
+          # (capture_intermediates adds 'intermediates' to the filter, so it is never "False")
+          shape_ok = (not isinstance(r, tuple)) if (f is False and not capture) else \
+              (isinstance(r, tuple) and len(r) == 2 and hasattr(r[1], 'keys'))
+          if not shape_ok:
+            core.violation(res, 'tree-ret-shape|' + key,
+                           'mutable=False returns the bare output, any other filter (also one that '
+                           'selects nothing) returns (output, updates)',
+                           dict(case0, filter=fname), observed=type(r).__name__)
           if isinstance(r, tuple) and f is not False:
             upd = r[1]
             if _dict_ids(upd) & _dict_ids(vin):
